@@ -144,7 +144,12 @@ pub fn run_pte(out: &mut Out, seed: u64, n: u64) {
     // is_empty notices a single non-zero slot anywhere; zero() clears every slot
     for i in 0..512usize {
         let mut t2 = PageTable::new();
-        t2[i].set_flags(PageTableFlags::from_bits_retain(1u64 << (52 + (i % 12))));
+        // a lone flag bit, a lone address bit (no flag at all), or both
+        match i % 3 {
+            0 => t2[i].set_flags(PageTableFlags::from_bits_retain(1u64 << (52 + (i % 12)))),
+            1 => t2[i].set_addr(PhysAddr::new(1u64 << (13 + (i % 39))), PageTableFlags::empty()),
+            _ => t2[i].set_addr(PhysAddr::new(1u64 << (12 + (i % 40))), PageTableFlags::from_bits_retain(1u64 << (i % 12))),
+        }
         let e1 = t2.is_empty();
         t2.zero();
         out.emit(Ev::new("tbl_one").n("i", i as i64).n("empty_before", e1 as i64).n("empty_after", t2.is_empty() as i64).n("nonzero_bytes", nonzero_bytes(&t2) as i64));
